@@ -146,7 +146,12 @@ impl Monitor for C14 {
 		"same workload space as C01 (all 784 versions, 81 port/ICs configurations in thorough, random histories). Per case: export frames with Frame::into_struct_array; (1) its data_type tree, rendered as ordered 'path: type' lines, must equal the tree built from the hand-transcribed spec tables (names, nesting, order, primitive types; id, ports.P<n>.leader/follower.pre/post, start >= 2.2, end and item: List<item> >= 3.0); (2) row count = frames, struct validity of each character = presence in the history; (3) every exported leaf equals the in-memory column (accessor table) and the model's expected values; (4) Frame::from_struct_array(array) put back into the game must serialise to the identical .slp. Every 4th case is preceded on the same thread by the export of a game of a later major version (4, 5, 9, 255) with the same minor and ports (outside the property, not judged). A family of concurrent cases runs 12 threads that each export and re-import a DIFFERENT small game 8 000 (30 000) times at once (same version with other port sets in even cases, other versions in odd ones): every exported type must be the single-threaded one and the frames must still serialise to the input. distinct = workload classes + distinct schema trees observed.".into()
 	}
 	fn lanes(&self, _tier: Tier) -> Vec<Lane> {
-		vec![Lane { kind: LaneKind::Miri, name: "roundtrip", shards: (0..25).collect(), nshards: 25 }]
+		vec![
+			Lane { kind: LaneKind::Miri, name: "roundtrip", shards: (0..25).collect(), nshards: 25 },
+			// three threads on different games at once, four Miri schedules: data races and aliasing
+			// violations in any state shared between exports are reported whatever the outcome
+			Lane { kind: LaneKind::Miri, name: "concurrent", shards: (0..4).collect(), nshards: 4 },
+		]
 	}
 	fn n_cases(&self, ctx: &Ctx) -> usize {
 		self.fixtures.len() + ctx.tier.pick(&self.quick, &self.thorough).len() + 1
